@@ -237,6 +237,8 @@ class Gen:
         ints = sc.assignable('i')
         if depth >= 3:
             k = r.below(9)
+            if in_loop and r.chance(1, 5):
+                k = 21 + r.below(2)      # break / continue at any nesting depth (switch in switch in loop)
         if k < 3 or not ints:
             name = self.fresh("v")
             kind = r.below(8)
@@ -305,6 +307,15 @@ class Gen:
             for _ in range(nc):
                 vals = [str(r.below(4)) for _ in range(1 + r.below(2))]
                 body = "; ".join(self.stmt(Scope(sc), in_loop, in_func, depth + 1) for _ in range(1 + r.below(2))) if r.chance(5, 6) else ""
+                if in_loop and r.chance(1, 6):
+                    # a switch nested directly in this case, leaving the loop iteration from inside both
+                    self.st("switch-in-switch jump")
+                    jump = r.choice(["break", "continue"])
+                    inner = "switch %s { case %d: %s\n default: %s\n }" % (
+                        self.t(self.int_expr(sc, 2)), r.below(3),
+                        r.choice([jump, "if %s { %s }" % (self.bool_expr(sc, 2), jump)]),
+                        r.choice(["", jump, "print(%s)" % self.int_expr(sc, 2)]))
+                    body = (body + "; " if body else "") + inner
                 cases.append("case %s: %s\n" % (", ".join(vals), body))
             if r.chance(2, 3):
                 body = self.stmt(Scope(sc), in_loop, in_func, depth + 1) if r.chance(5, 6) else ""
